@@ -20,6 +20,28 @@ from fractions import Fraction
 import z3
 
 
+_hq_cache = {}
+
+
+def has_quantifier(e):
+    k = e.get_id()
+    if k in _hq_cache:
+        return _hq_cache[k]
+    seen, stack, r = set(), [e], False
+    while stack:
+        x = stack.pop()
+        i = x.get_id()
+        if i in seen:
+            continue
+        seen.add(i)
+        if z3.is_quantifier(x):
+            r = True
+            break
+        stack.extend(x.children())
+    _hq_cache[k] = r
+    return r
+
+
 class Outside(Exception):
     """construct not in the verified subset"""
 
@@ -251,8 +273,10 @@ class Obligation:
 
 class LoopSpec:
     def __init__(self, invariant=(), decreases=None, kind=None, var=None, modifies_fields=(), modifies_roots=(),
-                 ghost_update=None, types=None):
+                 ghost_update=None, types=None, modifies_ghost=(), peel=0):
         self.types = dict(types or {})
+        self.modifies_ghost = list(modifies_ghost)
+        self.peel = peel
         self.invariant = list(invariant)
         self.decreases = decreases
         self.kind, self.var = kind, var
@@ -302,10 +326,11 @@ def labelled(clauses, prefix):
 
 
 class Executor:
-    def __init__(self, extracted, contract, prop, builtins=None, max_paths=400, feas_timeout_ms=2000):
+    def __init__(self, extracted, contract, prop, builtins=None, max_paths=400, feas_timeout_ms=400):
         self.fx, self.contract, self.prop = extracted, contract, prop
         self.obligations = []
         self.canaries = []
+        self._canaries_done = set()
         self.paths = 0
         self.max_paths = max_paths
         self.feas_timeout_ms = feas_timeout_ms
@@ -347,15 +372,17 @@ class Executor:
     def canary(self, st, goal, label, where=None):
         """a deliberately WRONG variant of an obligation, under the same path condition: it must come back
         refuted, otherwise the path condition is contradictory / the obligation it shadows is vacuous"""
-        self.canaries.append(Obligation(self.oid("canary." + label), self.axioms + st.pc, Z(Zb(goal)), "canary", where))
+        qf = [p for p in st.pc if not has_quantifier(p)]  # axioms are definitional; vacuity can only come from the path condition
+        self.canaries.append(Obligation(self.oid("canary." + label), qf, Z(Zb(goal)), "canary", where))
 
     def feasible(self, st, extra=None):
+        """path pruning only (an infeasible path that is kept merely yields vacuous obligations): quantifier-free
+        part of the path condition, short timeout, unknown counts as feasible"""
         s = z3.Solver()
         s.set("timeout", self.feas_timeout_ms)
-        for a in self.axioms:
-            s.add(a)
         for p in st.pc:
-            s.add(p)
+            if not has_quantifier(p):
+                s.add(p)
         if extra is not None:
             s.add(extra)
         return s.check() != z3.unsat
@@ -395,6 +422,16 @@ class Executor:
             # a normal return must not happen where the contract says `raises`
             for exc, cond in c.raises.items():
                 self.oblige(st, z3.Not(Zb(self.spec(self.entry_with_pc(st), cond))), f"raises.{exc}.not_returned", "raises")
+            for label, e in getattr(c, "canaries", ()):
+                if label not in self._canaries_done:
+                    try:
+                        g = self.spec(st, e, extra_env=env, old=self.entry)
+                    except Outside:
+                        continue
+                    # only on a path where the perturbed clause is genuinely undecided by the pc
+                    if self.feasible(st, z3.Not(Zb(g))):
+                        self._canaries_done.add(label)
+                        self.canary(st, g, label)
         elif kind == "raise":
             exc = value
             if exc in c.raises:
@@ -402,6 +439,9 @@ class Executor:
             else:
                 # undeclared exception: must be unreachable
                 self.oblige(st, False, f"no_{exc}", "raises")
+            if getattr(c, "frame_empty_on_raise", False):
+                n0 = len(self.entry.writes)
+                self.oblige(st, len(st.writes) == n0, f"on_{exc}.nothing_written", "frame")
             for label, e in labelled(c.ensures_raise.get(exc, ()), "rpost"):
                 self.oblige(st, self.spec(st, e, old=self.entry), f"on_{exc}.{label}", "post")
 
@@ -514,6 +554,8 @@ class Executor:
             raise Outside(f"subscript store on {type(base).__name__}")
         root = st.heap[base.root]
         st.writes.append(("heap", root.owner, base.root))
+        if getattr(self.contract, "no_param_writes", False) and str(root.owner).startswith("param:"):
+            self.oblige(st, False, f"no_store_into_parameter.L{node.lineno - self.fx.lineno}", "frame", node.lineno)
         if isinstance(sl, ast.Slice):
             tgt = ev.slice_view(base, sl, node)
             if tgt.step != 1:
@@ -594,7 +636,7 @@ class Executor:
             if isinstance(arr, Arr) and arr.root in hst.heap:
                 r = hst.heap[arr.root]
                 hst.heap[arr.root] = Root(r.length, fresh("hv", "arr"), r.dtype, r.owner)
-        for g in (spec.ghost_update or {}):
+        for g in list(spec.ghost_update or {}) + list(spec.modifies_ghost):
             if g in hst.ghost:
                 hst.ghost[g] = self._havoc_like(hst, hst.ghost[g], g)
         if it:
@@ -1002,6 +1044,8 @@ class Evaluator:
         divisor is positive; for a negative divisor the result is adjusted."""
         self.wd(zb != 0, "div0", n)
         sb = simp(zb > 0)
+        if str(zb) in getattr(self.ex, "positive", ()):
+            sb = True  # declared positive by the contract's `requires` (checked there)
         if sb is True:
             return simp(za / zb) if isinstance(op, ast.FloorDiv) else simp(za % zb)
         q, r = za / zb, za % zb  # Euclidean: a = q*b + r, 0 <= r < |b|
